@@ -367,6 +367,38 @@ func c15(r *core.Report) {
 				}
 			}
 			r.Check(okC, "C15-PAIR", c+" consumed width", p.Pos(df.Pos()), fmt.Sprintf("the decoder checks for, reads and skips exactly %d bytes", w), fmt.Sprintf("the decoder's length check / slice bounds %v differ from the %d bytes the encoder writes", keys(consts), w))
+			// a frame that holds exactly the header (an empty payload) is a valid frame: the decoder may
+			// refuse only frames SHORTER than the header: on every error return len(data) <= w-1 is provable
+			{
+				bd := core.NewBounds(p)
+				okEmpty, nErr := true, 0
+				for _, ret := range core.Returns(df) {
+					ei := len(ret.Results) - 1
+					isErr := false
+					for _, v := range core.ReturnValues(ret, ei) {
+						if !core.IsNilConst(v) {
+							isErr = true
+						}
+					}
+					if !isErr {
+						continue
+					}
+					nErr++
+					proved := false
+					for _, in2 := range core.AllInstrs(df) {
+						lc, ok := in2.(*ssa.Call)
+						if ok && core.IsBuiltin(lc.Common(), "len") && core.Through(lc.Call.Args[0]) == ssa.Value(df.Params[0]) {
+							if bd.ProveAtMost(ret, lc, w-1) {
+								proved = true
+							}
+						}
+					}
+					if !proved {
+						okEmpty = false
+					}
+				}
+				r.Check(nErr > 0 && okEmpty, "C15-PAIR", c+" empty payload", p.Pos(df.Pos()), fmt.Sprintf("the decoder rejects a frame only when it is shorter than the %d-byte header", w), fmt.Sprintf("the decoder rejects frames that are not shorter than the %d-byte header (a frame carrying an empty payload is refused): framing then unframing does not return every payload", w))
+			}
 			_ = enc
 			_ = dec
 		} else {
